@@ -44,6 +44,7 @@ CRATE_FINDERS = {
     # unit -> (host source file whose child module the finder becomes, finder test file)
     "runplan": ("src/app/run.rs", "units/runplan/finder_test.rs"),
     "log": ("src/app/log.rs", "units/log/finder_test.rs"),
+    "tracking": ("src/core/tracking.rs", "units/tracking/finder_test.rs"),
 }
 CACHE = os.path.join(U.VERIF, ".cache")
 
